@@ -23,8 +23,7 @@ static int lib_init(bz_stream *s, bool compress)
 	g_inits++;
 	if (verif_nd_bool("init.fails")) {
 		int e = verif_nd_int("init.err");
-		VERIF_ASSUME(e == BZ_CONFIG_ERROR || e == BZ_PARAM_ERROR ||
-			     e == BZ_MEM_ERROR);
+		VERIF_ASSUME(e != BZ_OK);     /* any other value */
 		g_init_failed = true;
 		g_lib_failed = true;
 		return e;
@@ -69,15 +68,14 @@ static int lib_step(bz_stream *s, bool compress, int action)
 		VERIF_ASSERT(action == expect[g_mode], "C15.adapter.flush_mode");
 	lib_progress(s->avail_in, s->avail_out, &c, &p);
 	if (compress) {
+		/* documented go-on codes, or ANY negative value (= failure) */
 		VERIF_ASSUME(code == BZ_RUN_OK || code == BZ_FLUSH_OK ||
 			     code == BZ_FINISH_OK || code == BZ_STREAM_END ||
-			     code == BZ_SEQUENCE_ERROR || code == BZ_PARAM_ERROR);
+			     code < 0);
 		if (code == BZ_STREAM_END)
 			VERIF_ASSUME(action == BZ_FINISH);
 	} else {
-		VERIF_ASSUME(code == BZ_OK || code == BZ_STREAM_END ||
-			     code == BZ_PARAM_ERROR || code == BZ_DATA_ERROR ||
-			     code == BZ_DATA_ERROR_MAGIC || code == BZ_MEM_ERROR);
+		VERIF_ASSUME(code == BZ_OK || code == BZ_STREAM_END || code < 0);
 	}
 	/* "go on" codes: the compressor reports missing progress as
 	 * BZ_PARAM_ERROR; the decompressor simply returns BZ_OK when it has no
@@ -124,7 +122,7 @@ void harness(void)
 	g_out_size0 = out_size;
 	g_c = g_p = 0;
 	g_lib_calls = 0;
-	g_lib_failed = g_lib_end = g_stalled = false;
+	g_lib_failed = g_lib_end = g_stalled = g_fail_stalled = false;
 	g_inits = g_ends = 0;
 	g_init_failed = false;
 	g_mode = (mode < 0 || mode >= XFRM_STREAM_FLUSH_COUNT) ? 0 : mode;
